@@ -94,6 +94,7 @@ void harness(void)
 	sqfs_block_t *const untouched = (sqfs_block_t *)&g_popped_next;
 	sqfs_block_t *out = untouched;
 	sqfs_block_t *fl0;
+	size_t backlog0;
 	int ret;
 
 	g_faults = 0;
@@ -133,6 +134,7 @@ void harness(void)
 	g_p.proc.free_list = verif_nd_bool("head_is_a") ? &g_fl_a.b :
 			     verif_nd_bool("head_is_c") ? &g_fl_c.b : NULL;
 	fl0 = g_p.proc.free_list;
+	backlog0 = g_p.proc.backlog;
 
 	ret = get_new_block(&g_p.proc, &out);
 
@@ -156,6 +158,12 @@ void harness(void)
 		VERIF_ASSERT(GNB_BACKLOG_OK(&g_p.proc) &&
 			     g_p.proc.backlog == g_backlog_at_exit + 1,
 			     "C01.bp.get_new_block.backlog");
+		if (g_deq_calls == 0)
+			VERIF_ASSERT(g_p.proc.backlog == backlog0 + 1,
+				     "C01.bp.get_new_block.backlog");
+		else
+			VERIF_ASSERT(g_p.proc.backlog <= backlog0,
+				     "C01.bp.get_new_block.backlog");
 	} else {
 		VERIF_ASSERT(out == untouched && g_zero_calls == 0,
 			     "C01.bp.get_new_block.fail_stop");
